@@ -2,8 +2,8 @@ package main
 
 func dmSymbolStubs() map[string]string {
 	return map[string]string{
-		"datamatrix/encoder.createECCBlock":                  "datamatrix/encoder.verifStubECC",
-		"datamatrix/decoder.(*Decoder).correctErrors":        "datamatrix/decoder.verifCheckPairing",
+		"datamatrix/encoder.createECCBlock":                "datamatrix/encoder.verifStubECC",
+		"datamatrix/decoder.(*Decoder).correctErrors":      "datamatrix/decoder.verifCheckPairing",
 		"datamatrix/decoder.DecodedBitStreamParser_decode": "datamatrix/decoder.verifRawResult",
 	}
 }
@@ -78,9 +78,9 @@ func init() {
 			}
 			return b
 		},
-		Exhaustive: func(tier string) bool { return false },
-		Outside:    []string{"createECCBlock with more than one free data byte per block (two free bytes with 5 ECC codewords: inconclusive at 30 s; tried again in thorough)", "high-level encodation (C02)"},
-		Stubs:      []string{"createECCBlock -> rotation stub in the interleave tasks"},
+		Exhaustive:  func(tier string) bool { return false },
+		Outside:     []string{"createECCBlock with more than one free data byte per block (two free bytes with 5 ECC codewords: inconclusive at 30 s; tried again in thorough)", "high-level encodation (C02)"},
+		Stubs:       []string{"createECCBlock -> rotation stub in the interleave tasks"},
 		Assumptions: append([]string{"reference typed from ISO/IEC 16022 (table 7, Annex F placement program, finder/clock geometry, 253/255-state algorithms); a disagreement on the unchanged tree is triaged by hand (two reference errors — right clock track parity, continuous ECC round robin for 144x144 — were corrected this way, the second one exposing a genuine encoder defect)"}, commonAssumptions...),
 	}
 }
